@@ -8,7 +8,7 @@ Open Scope Z_scope.
 Definition latched_op (o : cop) : bool :=
   match o with
   | CAdd _ _ _ | CSub _ _ _ | CMul _ _ _ | CQuo _ _ _ | CFMA _ _ _ _
-  | CNeg _ _ | CAbs _ _ | CSet _ _ | CNilOperand _ => true
+  | CNeg _ _ | CAbs _ _ | CSet _ _ | CSqrt _ _ | CNilOperand _ => true
   | _ => false
   end.
 
